@@ -1,0 +1,249 @@
+// Copyright 2020-2025 Buf Technologies, Inc.
+//
+// Licensed under the Apache License, Version 2.0 (the "License");
+// you may not use this file except in compliance with the License.
+// You may obtain a copy of the License at
+//
+//      http://www.apache.org/licenses/LICENSE-2.0
+//
+// Unless required by applicable law or agreed to in writing, software
+// distributed under the License is distributed on an "AS IS" BASIS,
+// WITHOUT WARRANTIES OR CONDITIONS OF ANY KIND, either express or implied.
+// See the License for the specific language governing permissions and
+// limitations under the License.
+
+//go:build verif
+
+package bufimage
+
+// Contracts for the gocv verifier (contract author ca-r4d). Comment-only.
+// Spec functions / ghost variables rd_*: /verif/specs/R4d.spec.
+//
+// ---- image.go / image_file.go / parser_accessor_handler.go: the remaining plain accessors and constructors ----
+//
+//@ func (i *image) Resolver() (r)
+//@   property C11
+//@   ensures r == i.resolver
+//
+// The path of an image file IS the name of its descriptor (documented interface invariant of ImageFile); the external
+// path falls back to the path when none was recorded; the imports are the descriptor's dependency list.
+//@ func (f *imageFile) Path() (r)
+//@   property C01 C11
+//@   ensures path-is-descriptor-name: r == f.fileDescriptorProto.GetName()
+//@ func (f *imageFile) ExternalPath() (r)
+//@   property C01 C11
+//@   ensures recorded-or-path: r == ite(f.externalPath == "", f.fileDescriptorProto.GetName(), f.externalPath)
+//@ func (f *imageFile) LocalPath() (r)
+//@   property C01 C11
+//@   ensures r == f.localPath
+//@ func (f *imageFile) Imports() (r, err)
+//@   property C01 C11
+//@   ensures imports-are-the-dependencies: err == nil && r == f.fileDescriptorProto.GetDependency()
+//
+// A fresh handler knows no path at all (every table empty and usable), and reads from the bucket it was given.
+//@ func newParserAccessorHandler(ctx, moduleReadBucket) (r)
+//@   property C01
+//@   ensures built: r != nil && !old(allocated(r))
+//@   ensures reads-the-given-bucket: r.moduleReadBucket == moduleReadBucket && r.ctx == ctx
+//@   ensures tables-usable: r.pathToExternalPath != nil && r.pathToLocalPath != nil && r.nonImportPaths != nil && r.pathToFullName != nil && r.pathToCommitID != nil
+//@   ensures knows-no-path: forall q string :: !(q in r.pathToExternalPath) && !(q in r.pathToLocalPath) && !(q in r.nonImportPaths) && !(q in r.pathToFullName) && !(q in r.pathToCommitID)
+//
+// ---- build_image.go: the file table of the resolver ----
+// addFileToMapRec: DFS over the import graph of the compiled files. The table only grows and stays keyed by path; the
+// start file is in it; every file ADDED by the call is import-closed in the final table (rd_closedAt: each of its
+// imports, looked up with File.FindImportByPath, is a key), so the resolver knows the entire transitive graph.
+//@ func addFileToMapRec(pathToFile, file)
+//@   property C11
+//@   modifies pathToFile
+//@   reveal rd_closedAt
+//@   requires table-given: pathToFile != nil
+//@   requires keyed: forall p string :: p in pathToFile ==> pathToFile[p].Path() == p
+//@   ensures table-grows: forall p string :: p in old(pathToFile) ==> p in pathToFile && pathToFile[p] == old(pathToFile)[p]
+//@   ensures keyed: pathToFile != nil && (forall p string :: p in pathToFile ==> pathToFile[p].Path() == p)
+//@   ensures start-included: file.Path() in pathToFile
+//@   ensures start-stored-if-new: !(file.Path() in old(pathToFile)) ==> pathToFile[file.Path()] == file
+//@   ensures added-are-import-closed: forall p string :: p in pathToFile && !(p in old(pathToFile)) ==> rd_closedAt(pathToFile, p)
+//@   loop 0 invariant 0 <= i && length == imports.Len() && imports == file.Imports()
+//@   loop 0 invariant pathToFile != nil && file.Path() in pathToFile && pathToFile[file.Path()] == file && !(file.Path() in old(pathToFile))
+//@   loop 0 invariant forall p string :: p in old(pathToFile) ==> p in pathToFile && pathToFile[p] == old(pathToFile)[p]
+//@   loop 0 invariant forall p string :: p in pathToFile ==> pathToFile[p].Path() == p
+//@   loop 0 invariant forall j int :: 0 <= j && j < i ==> file.FindImportByPath(imports.Get(j).FileDescriptor.Path()).Path() in pathToFile
+//@   loop 0 invariant forall p string :: p in pathToFile && !(p in old(pathToFile)) && p != file.Path() ==> rd_closedAt(pathToFile, p)
+//@   canary ensures forall p string :: p in pathToFile ==> p in old(pathToFile)
+//
+// ---- bufimage.go: module / well-known-type file infos ----
+// An ImageFileInfo for a module file is that file info seen as an image file: it is an import exactly when the module
+// file is not targeted, its imports are the module file's (fastscan) imports, its module is the file's module.
+//@ func newModuleImageFileInfo(fileInfo) (r)
+//@   property C01 C10
+//@   ensures r != nil && !old(allocated(r)) && r.FileInfo == fileInfo
+//@ func ImageFileInfoForModuleFileInfo(moduleFileInfo) (r)
+//@   property C01 C10
+//@   ensures wraps-the-module-file: r != nil && typeOf(r) == typeId(*moduleImageFileInfo) && cast(*moduleImageFileInfo, r).FileInfo == moduleFileInfo
+//@ trusted pure interface bufmodule.FileInfo
+//@ func (p *moduleImageFileInfo) IsImport() (r)
+//@   property C01 C10
+//@   ensures import-iff-not-targeted: r == !p.FileInfo.IsTargetFile()
+//@ func (p *moduleImageFileInfo) Imports() (r, err)
+//@   property C01 C10
+//@   ensures module-file-imports: r == first(p.FileInfo.ProtoFileImports()) && err == second(p.FileInfo.ProtoFileImports())
+//@ func (p *moduleImageFileInfo) FullName() (r)
+//@   property C01 C10
+//@   ensures r == p.FileInfo.Module().FullName()
+//@ func (p *moduleImageFileInfo) CommitID() (r)
+//@   property C01 C10
+//@   ensures r == p.FileInfo.Module().CommitID()
+//
+// A well-known-type file info stores what it is given; it never has a module.
+//@ func newWellKnownTypeImageFileInfo(objectInfo, imports, isImport) (r)
+//@   property C01 C10
+//@   ensures r != nil && !old(allocated(r)) && r.ObjectInfo == objectInfo && r.imports == imports && r.isImport == isImport
+//@ func (p *wellKnownTypeImageFileInfo) IsImport() (r)
+//@   property C01 C10
+//@   ensures r == p.isImport
+//@ func (p *wellKnownTypeImageFileInfo) Imports() (r, err)
+//@   property C01 C10
+//@   ensures r == p.imports && err == nil
+//@ func (p *wellKnownTypeImageFileInfo) FullName() (r)
+//@   property C01 C10
+//@   ensures no-module: r == nil
+//
+// ---- bufimage.go: deep copies ----
+// CloneImageFile: a file with the same path (the descriptor's name), the same import / syntax markers and unused-dependency
+// indexes, whose descriptor is a DISTINCT object holding the content of the original descriptor.
+// (module name, commit, external and local path: handed to NewImageFile unchanged, see the assert; the trusted bridge
+// NewImageFile says nothing about them.)
+//@ func CloneImageFile(imageFile) (r, err)
+//@   property C11 C17
+//@   requires file-has-descriptor: imageFile != nil && imageFile.FileDescriptorProto() != nil
+//@   ensures built: err == nil ==> r != nil
+//@   ensures same-flags: err == nil ==> r.IsImport() == imageFile.IsImport() && r.IsSyntaxUnspecified() == imageFile.IsSyntaxUnspecified()
+//@   ensures same-unused-dependencies: err == nil ==> len(r.UnusedDependencyIndexes()) == len(imageFile.UnusedDependencyIndexes()) && (forall a int :: 0 <= a && a < len(imageFile.UnusedDependencyIndexes()) ==> r.UnusedDependencyIndexes()[a] == imageFile.UnusedDependencyIndexes()[a])
+//@   ensures descriptor-is-a-distinct-copy: err == nil ==> r.FileDescriptorProto() != nil && r.FileDescriptorProto() != imageFile.FileDescriptorProto() && rd_sameMessage(imageFile.FileDescriptorProto(), r.FileDescriptorProto())
+//@   ensures path-is-the-copied-name: err == nil ==> r.Path() == r.FileDescriptorProto().GetName()
+//@   assert before "return NewImageFile(" rest-handed-over-unchanged: clonedDescriptor != imageFile.FileDescriptorProto() && len(unusedDeps) == len(originalUnusedDeps)
+//@   canary ensures err != nil
+//@   canary ensures err == nil ==> r.IsImport()
+//
+// CloneImage: one copy per file, in the image's order (no re-ordering), each a CloneImageFile copy.
+//@ func CloneImage(image) (r, err)
+//@   property C11 C17
+//@   modifies heap
+//@   requires files-have-descriptors: forall i int :: 0 <= i && i < len(image.Files()) ==> image.Files()[i] != nil && image.Files()[i].FileDescriptorProto() != nil
+//@   ensures one-copy-per-file: err == nil ==> r != nil && len(cast(*image, r).files) == len(image.Files())
+//@   ensures same-flags-in-order: err == nil ==> (forall i int :: 0 <= i && i < len(image.Files()) ==> cast(*image, r).files[i].IsImport() == image.Files()[i].IsImport() && cast(*image, r).files[i].IsSyntaxUnspecified() == image.Files()[i].IsSyntaxUnspecified())
+//@   ensures descriptors-are-distinct-copies: err == nil ==> (forall i int :: 0 <= i && i < len(image.Files()) ==> cast(*image, r).files[i].FileDescriptorProto() != image.Files()[i].FileDescriptorProto() && rd_sameMessage(image.Files()[i].FileDescriptorProto(), cast(*image, r).files[i].FileDescriptorProto()))
+//@   ensures same-unused-dependencies: err == nil ==> (forall i int :: 0 <= i && i < len(image.Files()) ==> len(cast(*image, r).files[i].UnusedDependencyIndexes()) == len(image.Files()[i].UnusedDependencyIndexes()))
+//@   loop 0 invariant len(imageFiles) == len(originalFiles) && originalFiles == image.Files()
+//@   loop 0 invariant forall j int :: 0 <= j && j < $i ==> imageFiles[j] != nil && imageFiles[j].IsImport() == originalFiles[j].IsImport() && imageFiles[j].IsSyntaxUnspecified() == originalFiles[j].IsSyntaxUnspecified() && imageFiles[j].FileDescriptorProto() != originalFiles[j].FileDescriptorProto() && rd_sameMessage(originalFiles[j].FileDescriptorProto(), imageFiles[j].FileDescriptorProto()) && len(imageFiles[j].UnusedDependencyIndexes()) == len(originalFiles[j].UnusedDependencyIndexes())
+//@   canary ensures err != nil
+//
+// ---- bufimage.go: the plugin request of ONE image (C17) ----
+// Documented: "All non-imports are added as files to generate. If includeImports is set, all non-well-known-type imports
+// are also added. If includeWellKnownTypes is set, well-known-type imports are also added. includeWellKnownTypes has no
+// effect if includeImports is not set." With F = image.Files():
+//  * file_to_generate holds exactly the paths of the files that are non-imports, or imports when includeImports is set and
+//    (the path is not a well-known type or includeWellKnownTypes is set): both directions, nothing else;
+//  * proto_file has one entry per image file at the file's position (image order = dependency order): the file's own
+//    descriptor unless the file is generated (then the runtime view: source-retention options stripped);
+//  * source_file_descriptors holds, per generated file, the file's own (unstripped) descriptor;
+//  * parameter and compiler version are passed through.
+//@ func ImageToCodeGeneratorRequest(image, parameter, compilerVersion, includeImports, includeWellKnownTypes) (r, err)
+//@   property C17
+//@   modifies heap
+//@   ensures all-files-sent: err == nil ==> r != nil && len(r.ProtoFile) == len(image.Files())
+//@   ensures non-imports-generated: err == nil ==> (forall i int :: 0 <= i && i < len(image.Files()) && !image.Files()[i].IsImport() ==> (exists j int :: 0 <= j && j < len(r.FileToGenerate) && r.FileToGenerate[j] == image.Files()[i].Path()))
+//@   ensures requested-imports-generated: err == nil && includeImports ==> (forall i int :: 0 <= i && i < len(image.Files()) && image.Files()[i].IsImport() && (includeWellKnownTypes || !datawkt.Exists(image.Files()[i].Path())) ==> (exists j int :: 0 <= j && j < len(r.FileToGenerate) && r.FileToGenerate[j] == image.Files()[i].Path()))
+//@   ensures nothing-else-generated: err == nil ==> (forall j int :: 0 <= j && j < len(r.FileToGenerate) ==> (exists i int :: 0 <= i && i < len(image.Files()) && r.FileToGenerate[j] == image.Files()[i].Path() && (!image.Files()[i].IsImport() || (includeImports && (includeWellKnownTypes || !datawkt.Exists(r.FileToGenerate[j]))))))
+//@   ensures wkt-flag-alone-has-no-effect: err == nil && !includeImports ==> (forall j int :: 0 <= j && j < len(r.FileToGenerate) ==> (exists i int :: 0 <= i && i < len(image.Files()) && r.FileToGenerate[j] == image.Files()[i].Path() && !image.Files()[i].IsImport()))
+//@   ensures proto-file-in-image-order: err == nil ==> (forall i int :: 0 <= i && i < len(image.Files()) ==> r.ProtoFile[i] == image.Files()[i].FileDescriptorProto() || (exists j int :: 0 <= j && j < len(r.FileToGenerate) && r.FileToGenerate[j] == image.Files()[i].Path()))
+//@   ensures source-descriptors-of-the-generated: err == nil ==> len(r.SourceFileDescriptors) == len(r.FileToGenerate) && (forall j int :: 0 <= j && j < len(r.FileToGenerate) ==> (exists i int :: 0 <= i && i < len(image.Files()) && image.Files()[i].Path() == r.FileToGenerate[j] && r.SourceFileDescriptors[j] == image.Files()[i].FileDescriptorProto()))
+//@   ensures parameter-passed-through: err == nil ==> (parameter == "" ==> r.Parameter == nil) && (parameter != "" ==> r.Parameter != nil && s_strOf(r.Parameter) == parameter)
+//@   ensures compiler-version-passed-through: err == nil ==> r.CompilerVersion == compilerVersion
+//@   canary ensures err != nil
+//@   canary ensures err == nil ==> len(r.FileToGenerate) == 0
+//
+// (ImageWithOnlyPathsAllowNotExist is NOT under contract: its body is one call of imageWithOnlyPaths, whose C11 contract has
+// the preconditions acyclic / image-paths-valid / image-indexed. Restating them here makes them obligations of the caller
+// bufctl.filterImage (controller.go:1374), which knows nothing about its image: bufctl.filterImage#pre@bufimage.
+// ImageWithOnlyPathsAllowNotExist[acyclic|image-paths-valid|image-indexed]: "solver says unknown"; without them
+// ImageWithOnlyPathsAllowNotExist#pre@bufimage.imageWithOnlyPaths[...] cannot be established. With the three requires the
+// wrapper discharged 10/10: the seven selection clauses of imageWithOnlyPaths carry over word for word.)
+//
+// ---- bufimage.go: completing a workspace's file infos with the built-in well-known types (C01, C10) ----
+// Documented: "appends any Well-Known Types that are not already present in the input ... The appended Well-Known Types
+// will be in sorted order by path, and will all be marked as imports." C01: "well-known-type imports resolve to the
+// built-in copies UNLESS THE WORKSPACE SUPPLIES THEM".
+// With M = the path table on entry (the paths the workspace supplies) and A = the appended tail of the result:
+//  * the given infos are kept in front, in order;
+//  * every element of A is a fresh well-known-type info (typeOf) marked import, whose path is in datawkt.AllFilePaths and
+//    is NOT supplied by the workspace, carrying the imports datawkt records for that path;
+//  * every datawkt.AllFilePaths entry the workspace does not supply is in A; A is in increasing path order, each path once;
+//  * the path table is extended by exactly A (older entries untouched);
+//  * a bucket that does not list exactly datawkt.AllFilePaths is an error.
+// (An element of A is described through the fields of *wellKnownTypeImageFileInfo: the engine does not link the
+// ImageFileInfo interface to its implementations; the accessors are verified above: IsImport() == isImport,
+// Imports() == imports, Path() is the embedded ObjectInfo's.)
+//@ func appendWellKnownTypeImageFileInfos(ctx, wktBucket, imageFileInfos, pathToImageFileInfo) (r, err)
+//@   property C01 C10
+//@   modifies pathToImageFileInfo, ghost.fail, ghost.sinkPaths, ghost.sinkBuckets, heap
+//@   requires table-given: pathToImageFileInfo != nil
+//@   ensures given-kept-in-front: err == nil ==> len(r) >= len(imageFileInfos) && (forall k int :: 0 <= k && k < len(imageFileInfos) ==> r[k] == imageFileInfos[k])
+//@   ensures appended-are-import-wkt-infos: err == nil ==> (forall k int :: len(imageFileInfos) <= k && k < len(r) ==> r[k] != nil && typeOf(r[k]) == typeId(*wellKnownTypeImageFileInfo) && cast(*wellKnownTypeImageFileInfo, r[k]).isImport)
+//@   ensures appended-are-built-in-paths: err == nil ==> (forall k int :: len(imageFileInfos) <= k && k < len(r) ==> (exists w int :: 0 <= w && w < len(datawkt.AllFilePaths) && datawkt.AllFilePaths[w] == cast(*wellKnownTypeImageFileInfo, r[k]).ObjectInfo.Path()))
+//@   ensures supplied-by-workspace-not-appended: err == nil ==> (forall k int :: len(imageFileInfos) <= k && k < len(r) ==> !(cast(*wellKnownTypeImageFileInfo, r[k]).ObjectInfo.Path() in old(pathToImageFileInfo)))
+//@   ensures appended-carry-built-in-imports: err == nil ==> (forall k int :: len(imageFileInfos) <= k && k < len(r) ==> cast(*wellKnownTypeImageFileInfo, r[k]).imports == first(datawkt.FileImports(cast(*wellKnownTypeImageFileInfo, r[k]).ObjectInfo.Path())))
+//@   ensures every-missing-wkt-appended: err == nil ==> (forall w int :: 0 <= w && w < len(datawkt.AllFilePaths) && !(datawkt.AllFilePaths[w] in old(pathToImageFileInfo)) ==> (exists k int :: len(imageFileInfos) <= k && k < len(r) && cast(*wellKnownTypeImageFileInfo, r[k]).ObjectInfo.Path() == datawkt.AllFilePaths[w]))
+//@   ensures appended-sorted-each-once: err == nil ==> (forall a int, b int :: len(imageFileInfos) <= a && a < b && b < len(r) ==> cast(*wellKnownTypeImageFileInfo, r[a]).ObjectInfo.Path() <= cast(*wellKnownTypeImageFileInfo, r[b]).ObjectInfo.Path() && cast(*wellKnownTypeImageFileInfo, r[a]).ObjectInfo.Path() != cast(*wellKnownTypeImageFileInfo, r[b]).ObjectInfo.Path())
+//@   ensures table-extended-by-the-appended: err == nil ==> (forall p string :: p in pathToImageFileInfo <==> (p in old(pathToImageFileInfo) || (exists w int :: 0 <= w && w < len(datawkt.AllFilePaths) && datawkt.AllFilePaths[w] == p)))
+//@   ensures table-older-entries-untouched: forall p string :: p in old(pathToImageFileInfo) ==> p in pathToImageFileInfo && pathToImageFileInfo[p] == old(pathToImageFileInfo)[p]
+//@   ensures table-holds-the-appended: err == nil ==> (forall k int :: len(imageFileInfos) <= k && k < len(r) ==> pathToImageFileInfo[cast(*wellKnownTypeImageFileInfo, r[k]).ObjectInfo.Path()] == r[k])
+//@   assert before "if !slices.Equal(" bucket-paths-listed: len(wktPaths) == len(wktObjectInfos) && (forall i int :: 0 <= i && i < len(wktObjectInfos) ==> wktPaths[i] == wktObjectInfos[i].Path())
+//@   loop 0 invariant prefix: len(resultImageFileInfos) >= len(imageFileInfos) && (forall k int :: 0 <= k && k < len(imageFileInfos) ==> resultImageFileInfos[k] == imageFileInfos[k])
+//@   loop 0 invariant appended: forall k int :: len(imageFileInfos) <= k && k < len(resultImageFileInfos) ==> resultImageFileInfos[k] != nil && typeOf(resultImageFileInfos[k]) == typeId(*wellKnownTypeImageFileInfo) && cast(*wellKnownTypeImageFileInfo, resultImageFileInfos[k]).isImport && cast(*wellKnownTypeImageFileInfo, resultImageFileInfos[k]).imports == first(datawkt.FileImports(cast(*wellKnownTypeImageFileInfo, resultImageFileInfos[k]).ObjectInfo.Path()))
+//@   loop 0 invariant appended-from-bucket: forall k int :: len(imageFileInfos) <= k && k < len(resultImageFileInfos) ==> (exists w int :: 0 <= w && w < $i && wktObjectInfos[w].Path() == cast(*wellKnownTypeImageFileInfo, resultImageFileInfos[k]).ObjectInfo.Path()) && !(cast(*wellKnownTypeImageFileInfo, resultImageFileInfos[k]).ObjectInfo.Path() in old(pathToImageFileInfo)) && cast(*wellKnownTypeImageFileInfo, resultImageFileInfos[k]).ObjectInfo.Path() in pathToImageFileInfo && pathToImageFileInfo[cast(*wellKnownTypeImageFileInfo, resultImageFileInfos[k]).ObjectInfo.Path()] == resultImageFileInfos[k]
+//@   loop 0 invariant missing-appended: forall w int :: 0 <= w && w < $i && !(wktObjectInfos[w].Path() in old(pathToImageFileInfo)) ==> (exists k int :: len(imageFileInfos) <= k && k < len(resultImageFileInfos) && cast(*wellKnownTypeImageFileInfo, resultImageFileInfos[k]).ObjectInfo.Path() == wktObjectInfos[w].Path())
+//@   loop 0 invariant sorted-once: forall a int, b int :: len(imageFileInfos) <= a && a < b && b < len(resultImageFileInfos) ==> cast(*wellKnownTypeImageFileInfo, resultImageFileInfos[a]).ObjectInfo.Path() <= cast(*wellKnownTypeImageFileInfo, resultImageFileInfos[b]).ObjectInfo.Path() && cast(*wellKnownTypeImageFileInfo, resultImageFileInfos[a]).ObjectInfo.Path() != cast(*wellKnownTypeImageFileInfo, resultImageFileInfos[b]).ObjectInfo.Path()
+//@   loop 0 invariant table: pathToImageFileInfo != nil && (forall p string :: p in pathToImageFileInfo <==> (p in old(pathToImageFileInfo) || (exists w int :: 0 <= w && w < $i && wktObjectInfos[w].Path() == p)))
+//@   loop 0 invariant table-old: forall p string :: p in old(pathToImageFileInfo) ==> pathToImageFileInfo[p] == old(pathToImageFileInfo)[p]
+//@   canary ensures err != nil
+//@   canary ensures err == nil ==> len(r) == len(imageFileInfos)
+//
+// AppendWellKnownTypeImageFileInfos (exported): the same statement with the path table built from the given infos: the
+// workspace supplies a path iff one of the given infos has it. Two given infos with one path are an error.
+//@ func AppendWellKnownTypeImageFileInfos(ctx, wktBucket, imageFileInfos) (r, err)
+//@   property C01 C10
+//@   modifies ghost.fail, ghost.sinkPaths, ghost.sinkBuckets, heap
+//@   ensures given-kept-in-front: err == nil ==> len(r) >= len(imageFileInfos) && (forall k int :: 0 <= k && k < len(imageFileInfos) ==> r[k] == imageFileInfos[k])
+//@   ensures appended-are-import-wkt-infos: err == nil ==> (forall k int :: len(imageFileInfos) <= k && k < len(r) ==> r[k] != nil && typeOf(r[k]) == typeId(*wellKnownTypeImageFileInfo) && cast(*wellKnownTypeImageFileInfo, r[k]).isImport)
+//@   ensures appended-are-built-in-paths: err == nil ==> (forall k int :: len(imageFileInfos) <= k && k < len(r) ==> (exists w int :: 0 <= w && w < len(datawkt.AllFilePaths) && datawkt.AllFilePaths[w] == cast(*wellKnownTypeImageFileInfo, r[k]).ObjectInfo.Path()))
+//@   ensures every-missing-wkt-appended: err == nil ==> (forall w int :: 0 <= w && w < len(datawkt.AllFilePaths) && (forall j int :: 0 <= j && j < len(imageFileInfos) ==> imageFileInfos[j].Path() != datawkt.AllFilePaths[w]) ==> (exists k int :: len(imageFileInfos) <= k && k < len(r) && cast(*wellKnownTypeImageFileInfo, r[k]).ObjectInfo.Path() == datawkt.AllFilePaths[w]))
+//@   ensures appended-sorted-each-once: err == nil ==> (forall a int, b int :: len(imageFileInfos) <= a && a < b && b < len(r) ==> cast(*wellKnownTypeImageFileInfo, r[a]).ObjectInfo.Path() <= cast(*wellKnownTypeImageFileInfo, r[b]).ObjectInfo.Path() && cast(*wellKnownTypeImageFileInfo, r[a]).ObjectInfo.Path() != cast(*wellKnownTypeImageFileInfo, r[b]).ObjectInfo.Path())
+//@   ensures duplicate-paths-rejected: err == nil ==> (forall i int, j int :: 0 <= i && i < j && j < len(imageFileInfos) && imageFileInfos[i].Path() == imageFileInfos[j].Path() ==> imageFileInfos[i].Path() == "")
+//@   ensures supplied-by-workspace-not-appended: err == nil ==> (forall k int, j int :: len(imageFileInfos) <= k && k < len(r) && 0 <= j && j < len(imageFileInfos) && imageFileInfos[j].Path() != "" ==> cast(*wellKnownTypeImageFileInfo, r[k]).ObjectInfo.Path() != imageFileInfos[j].Path())
+//@   canary ensures err != nil
+//@   canary ensures err == nil ==> len(r) == len(imageFileInfos)
+//
+// (ImageFileInfosWithOnlyTargetsAndTargetImports is NOT under contract - attempt kept in /tmp/ca/r4/d/attempt_lsfiles.go.
+// With a trusted dispatch bridge `(ImageFileInfo) Path()` for *wellKnownTypeImageFileInfo the clauses sorted-each-path-once,
+// the map-range loop (listed / visited-listed / listed-once), pre@...Rec[keyed] and all Rec-loop steps discharged; open:
+//  - bufimage.ImageFileInfosWithOnlyTargetsAndTargetImports#sort-comparator[0.ties-transitive]: "solver says sat [cvc5:sat:55ms]"
+//    (a fact about the string order `a.Path() < b.Path()` alone, stated by the engine without path condition);
+//  - #assert[given-indexed] "solver says sat [z3-new:sat:143ms]": after slicesext.ToUniqueValuesMap(imageFileInfos,
+//    ImageFileInfo.Path) the key f(s[j]) of the callee's contract is not identified with imageFileInfos[j].Path();
+//  - hence #pre@imageFileInfosWithOnlyTargetsAndTargetImportsRec[start-known] and the closure posts: "solver says unknown".
+// Its parts are verified: appendWellKnownTypeImageFileInfos above, imageFileInfosWithOnlyTargetsAndTargetImportsRec (C10).)
+//
+// newImageFile: validation first (a nil descriptor is an error and yields no file), then exactly newImageFileNoValidate:
+// the file stores the markers, module and paths it is given, and a *descriptorpb.FileDescriptorProto is kept as is.
+//@ func newImageFile(fileDescriptor, moduleFullName, commitID, externalPath, localPath, isImport, isSyntaxUnspecified, unusedDependencyIndexes) (r, err)
+//@   property C01 C11
+//@   modifies heap, ghost.s_unknown
+//@   ensures file-or-error: (r == nil) <==> (err != nil)
+//@   ensures nil-descriptor-rejected: fileDescriptor == nil ==> err != nil
+//@   ensures markers: err == nil ==> r.isImport == isImport && r.isSyntaxUnspecified == isSyntaxUnspecified
+//@   ensures unused-dependency-indexes: err == nil ==> len(r.unusedDependencyIndexes) == len(unusedDependencyIndexes) && (forall a int :: 0 <= a && a < len(unusedDependencyIndexes) ==> r.unusedDependencyIndexes[a] == unusedDependencyIndexes[a])
+//@   ensures module-and-paths: err == nil ==> r.moduleFullName == moduleFullName && r.commitID == commitID && r.externalPath == externalPath && r.localPath == localPath
+//@   ensures descriptor-proto-kept-as-is: err == nil && typeOf(fileDescriptor) == typeId(*descriptorpb.FileDescriptorProto) ==> r.fileDescriptorProto == fileDescriptor
+//@   canary ensures err != nil
+//@   canary ensures err == nil
